@@ -17,6 +17,7 @@ import (
 	"strconv"
 	"strings"
 	"sync"
+	"sync/atomic"
 	"time"
 
 	restful "github.com/emicklei/go-restful/v3"
@@ -254,6 +255,22 @@ type gateFirstKey struct{}
 // PlainPath / PlainFPath are the patterns of the Handle / HandleWithFilter registrations.
 const PlainPath, PlainFPath = "/plain-h", "/plain-hf"
 
+// recoverLog counts the calls of the library's own recover handler: container.go logStackOnRecover
+// leaves exactly one log.Print ("recover from panic situation: …" with the stack) per call through the
+// package logger that restful.SetLogger installs.
+type recoverLog struct{ calls int64 }
+
+func (l *recoverLog) note(s string) {
+	if strings.HasPrefix(s, "recover from panic situation") {
+		atomic.AddInt64(&l.calls, 1)
+	}
+}
+func (l *recoverLog) Print(v ...interface{})                 { l.note(fmt.Sprint(v...)) }
+func (l *recoverLog) Printf(format string, v ...interface{}) { l.note(fmt.Sprintf(format, v...)) }
+func (l *recoverLog) count() int                             { return int(atomic.LoadInt64(&l.calls)) }
+
+var libLog recoverLog
+
 // Build constructs the real container for a serve configuration.
 func Build(cfg *Cfg) (c *restful.Container, err error) {
 	defer func() {
@@ -261,6 +278,7 @@ func Build(cfg *Cfg) (c *restful.Container, err error) {
 			c, err = nil, fmt.Errorf("build panic: %v", r)
 		}
 	}()
+	restful.SetLogger(&libLog)
 	c = restful.NewContainer()
 	if cfg.Routing.Router == "jsr" {
 		c.Router(restful.RouterJSR311{})
@@ -508,6 +526,7 @@ func serveImpl(c *restful.Container, cfg *Cfg, r SReq, led *Ledger, sequential b
 		rec.Header().Set("Content-Encoding", r.Prior)
 	}
 	a0, r0, d0 := led.Snapshot()
+	l0 := libLog.count()
 	res = &Result{}
 	func() {
 		defer func() {
@@ -533,6 +552,9 @@ func serveImpl(c *restful.Container, cfg *Cfg, r SReq, led *Ledger, sequential b
 	res.KeepErr = cfg.CustomErr
 	res.Acq, res.Rel, res.DblRel = a1-a0, r1-r0, d1-d0
 	res.Recov = t.recov
+	if sequential {
+		res.RecovDefault = libLog.count() - l0
+	}
 	res.Log = t.log
 	result := rec.Result()
 	res.Status = result.StatusCode
